@@ -470,6 +470,12 @@ def checkCompl (args res : List String) : Except String (Findings × String) := 
   let mut f : Findings := sameOperand "A" A A'
   let ok ← getE (isComplM C A Sg FUEL) "fuel(compl)"
   if !ok then f := f ++ ["violation complement-language"]
+  -- the second call, after the alphabet has grown by one nullary symbol (same automaton, same alphabet object, same process)
+  match kv res "C2" >>= parseTA? with
+  | some C2 =>
+    let Sg2 := Sg ++ [(ranks.length, 0)]
+    if !(← getE (isComplM C2 A Sg2 FUEL) "fuel(compl)") then f := f ++ ["violation complement-language (second call, after the alphabet has grown)"]
+  | none => pure ()
   let eA ← emptyE A
   let eC ← emptyE C
   -- the L2 model of the macro-state construction (`complTD_spec`, `complTD_total`): the set of macro-states and rules is
